@@ -99,7 +99,7 @@ fn check(e: &Expression, case: &str, rep: &mut Report) {
     rep.evaluations += 1;
     let mut uns = vec![];
     unsupported(e, &mut uns, false);
-    let res = match compile_g(e, &opts_default(), "/dev/x") {
+    let res = match compile_g(e, &crate::sut::opts_for(crate::rng::hash_str(case)), "/dev/x") {
         Err(p) => {
             let which = uns.first().map(|u| u.0.clone()).unwrap_or_else(|| "supported-tree".into());
             rep.violation(&format!("C12:{}:{}", p.sig(), which), &format!("compile panicked: {} on {:?}", p.0, e), case, J::obj(vec![("tree", J::s(format!("{:?}", e)))]));
